@@ -121,9 +121,29 @@ func main() {
 						continue
 					}
 					kc := choices[ck]
-					c := &config{Backend: b, Size: size, G: x.g, P: x.p, HashInit: kc.HashInit, Keys: kc.Keys}
+					c := &config{Backend: b, Size: size, MaxLive: 3, G: x.g, P: x.p, HashInit: kc.HashInit, Keys: kc.Keys}
 					c.init()
 					plans = append(plans, &plan{sub: sub, cfg: c, kc: kc})
+				}
+			}
+		}
+	}
+	// Thorough-only extension beyond the stated alphabet: 4 live blocks (8
+	// locations per key) for the larger tables and the larger attempt limits.
+	if r.Thorough() {
+		for _, b := range []string{"mem-harness", "dev-volatile"} {
+			for _, size := range []int{3, 5} {
+				sub := fmt.Sprintf("%s/size%d/live4", b, size)
+				if !r.Want(sub) {
+					continue
+				}
+				for _, x := range []gp{{2, 2}, {3, 2}, {3, 4}} {
+					for _, nk := range []int{3, 4} {
+						kc := choices[kcKey{size, nk, 1}]
+						c := &config{Backend: b, Size: size, MaxLive: 4, G: x.g, P: x.p, HashInit: kc.HashInit, Keys: kc.Keys}
+						c.init()
+						plans = append(plans, &plan{sub: sub, cfg: c, kc: kc})
+					}
 				}
 			}
 		}
@@ -136,8 +156,8 @@ func main() {
 	}
 	sort.SliceStable(order, func(a, b int) bool {
 		pa, pb := plans[order[a]].cfg, plans[order[b]].cfg
-		wa := pa.Size*100 + len(pa.Keys)*30 + int(pa.G)*5 + pa.P
-		wb := pb.Size*100 + len(pb.Keys)*30 + int(pb.G)*5 + pb.P
+		wa := pa.MaxLive*1000 + pa.Size*100 + len(pa.Keys)*30 + int(pa.G)*5 + pa.P
+		wb := pb.MaxLive*1000 + pb.Size*100 + len(pb.Keys)*30 + int(pb.G)*5 + pb.P
 		return wa > wb
 	})
 	par.For(len(order), func(i int) {
@@ -150,6 +170,7 @@ func main() {
 	// ---- report ----
 	subs := map[string]*ev.Sub{}
 	subOutcomes := map[string]*ev.Set{}
+	maxLiveOf := map[string]int{}
 	var subOrder []string
 	globalSamples := map[string]sampleT{}
 	allOutcomes := map[string]int64{}
@@ -163,6 +184,7 @@ func main() {
 			subOutcomes[p.sub] = &ev.Set{}
 			subOrder = append(subOrder, p.sub)
 		}
+		maxLiveOf[p.sub] = p.cfg.MaxLive
 		res := p.res
 		if os.Getenv("C06_DEBUG") != "" {
 			fmt.Printf("DEBUG %-70s states=%-8d trans=%-9d depth=%-3d fix=%v pruned=%d antichain=%d disc=%d fallback=%d wall=%.1fs slots=%v\n", p.cfg.name(), res.states, res.transitions, res.depth, res.fixpoint, res.pruned, res.maxAntichain, res.withDiscard, res.devFallback, p.wall, p.kc.Seqs)
@@ -179,7 +201,7 @@ func main() {
 		}
 		if !res.fixpoint {
 			s.Exhaustive = false
-			s.CapsHit = append(s.CapsHit, fmt.Sprintf("get%d/put%d/%dkeys/init%#x: %s", p.cfg.G, p.cfg.P, len(p.cfg.Keys), p.cfg.HashInit, res.cap))
+			s.CapsHit = append(s.CapsHit, fmt.Sprintf("get%d/put%d/%dkeys/init%#x: %s (BFS complete to the depth before)", p.cfg.G, p.cfg.P, len(p.cfg.Keys), p.cfg.HashInit, res.cap))
 		}
 		s.Extra["configurations"] = append(s.Extra["configurations"].([]any), map[string]any{
 			"max_get_attempts": p.cfg.G, "max_put_attempts": p.cfg.P, "hash_init": fmt.Sprintf("%#x", p.cfg.HashInit), "keys": p.cfg.Keys,
@@ -211,7 +233,7 @@ func main() {
 				maxDepth = d
 			}
 		}
-		s.Space = fmt.Sprintf("%d configurations (get attempts x put attempts x key/hash-initialisation choice) of backend/table size %s; per configuration ALL sequences of put(k,loc) [k in 3-4 pairwise colliding keys, loc in live block(<=3) x 2 offsets, equal locations under different keys included], push, release-oldest, with Get of every key after every operation; BFS over canonical states", len(cfgs), name)
+		s.Space = fmt.Sprintf("%d configurations (get attempts x put attempts x key/hash-initialisation choice) of backend/table size %s; per configuration ALL sequences of put(k,loc) [k in 3-4 pairwise colliding keys, loc in live block(<=%d) x 2 offsets, equal locations under different keys included], push, release-oldest, with Get of every key after every operation; BFS over canonical states", len(cfgs), name, maxLiveOf[name])
 		s.BoundCompleted = fmt.Sprintf("fixpoint in %d/%d configurations, deepest shortest path %d", fix, len(cfgs), maxDepth)
 	}
 	// Key choices in the evidence.
